@@ -35,6 +35,16 @@ CHECKS = {
                 note=TB + "; hw/Npu.v footprint model trusted; intended identities are read from the compiler's own high-level "
                      "command stream by tools/wrap.py (run-time wrapper); views of one buffer with inconsistent strides are not "
                      "distinguished (C06/C10)"),
+    "C11": dict(cat="translation_validation", ref="7/C11", technique="Coq-proved preservation validator (check_preserved_sound) on (source, output) model summaries of real compilations; matching supplied as checked witness",
+                text="Theorem check_preserved_sound (Coq): acceptance implies the same subgraph inputs/outputs in order with equal "
+                     "(name, shape, type, quantisation); every CPU-resident operator of the output is a distinct source operator "
+                     "with equal code, custom code, version, option fields, custom option bytes, constant operand contents and "
+                     "wiring (through an injective tensor map); operator order respects data dependencies; every source operator "
+                     "that disappeared has its surviving outputs produced by an Ethos-U operator or folded to a constant. Run on "
+                     "generated networks mixing supported and unsupported operators (types, shapes, dtypes, dynamic weights, "
+                     "third-party custom op, several outputs); additionally each output is re-read with Vela's reader and the plain "
+                     "flatbuffer walker. Sampled compilations.",
+                note=TB + "; tools/tflsum.py; 56-bit hash signatures; empty options table == absent options table"),
     "C12": dict(cat="translation_validation", ref="7/C12", technique="Coq-proved arena-plan validator (check_arena_sound) run on the output model, stream footprints and summary CSV of real compilations",
                 text="Theorem check_arena_sound (Coq): acceptance implies that tensors live at a common time step never share a byte, "
                      "every offset honours the requested alignment, the scratch tensor starts at 0 and spans every arena byte the "
